@@ -41,6 +41,9 @@ def shapes(P, in_class, member='Value'):
         'M<K,P>': T(M, t=[T('Key'), T(P)]),
         'V<V<P>>': T(V, t=[T(V, t=[T(P)])]),
         'V<M<K,V<P>>>': T(V, t=[T(M, t=[T('Key'), T(V, t=[T(P)])])]),
+        # a templated sibling in front of the parameter
+        'M<V<P>,P>': T(M, t=[T(V, t=[T(P)]), T(P)]),
+        'M<V<K>,P*>': T(M, t=[T(V, t=[T('Key')]), T(P, 0, '*')]),
         'P::Value': T(P + '::' + member),
         'const P::Value&': T(P + '::' + member, 1, '&'),
         'P::Sub::Value': T(P + '::Sub::' + member),
@@ -69,8 +72,9 @@ def shapes(P, in_class, member='Value'):
 
 
 def build_module(shape_label, P, conc_label, second_shape=None):
-    conc = CONCRETE[conc_label]
     Q = 'POIN' + P       # method-level parameter: its spelling *ends with* the class-level one (POINT for T)
+    # 'captured': the class is instantiated with a concrete type that is spelled like the method-level parameter
+    conc = CONCRETE[conc_label] if conc_label != 'captured' else T(Q)
     S = shapes(P, True, 'Item' if P == 'Value' else 'Value')[shape_label]
     # the member name after a method-level parameter must not itself be the class-level parameter's
     # spelling (UU::Value with a parameter called Value is ambiguous in the dialect)
@@ -124,6 +128,11 @@ def build_module(shape_label, P, conc_label, second_shape=None):
         Sq = shapes(Q, False, qmember)[shape_label]
         mod[0]['c'].append(D.func(single(Sq), 'fn2', [arg(S, 'a'), arg(Sq, 'b')],
                                   tpl=[D.tparam(P, [conc, second]), D.tparam(Q, [mconc, T('double')])]))
+        # two class-level parameters handed to the base class in the other order
+        mod[0]['c'].append(D.cls('Two', [D.ctor('Two', [arg(S, 'a'), arg(Sq, 'b')]), D.method(pair(T(Q), T(P)), 'both', [], 1),
+                                         D.method(single(T('M', t=[T(Q), T(P)])), 'mp', [arg(T('M', 1, '&', [T(P), T(Q)]), 'm')])],
+                                 tpl=[D.tparam(P, [conc, second]), D.tparam(Q, [mconc])], v=1,
+                                 b=T('ns::Base2', t=[T(Q), T(P)])))
     return mod
 
 
@@ -228,6 +237,10 @@ def run(ctx):
         for P in spellings:
             for cl in CONCRETE:
                 cases.append({'shape': sh, 'P': P, 'conc': cl})
+    # capture: the concrete type is spelled like the method-level parameter
+    for sh in ('P', 'const P&', 'P*', 'P@', 'V<P>', 'P::Value', 'This'):
+        for P in spellings:
+            cases.append({'shape': sh, 'P': P, 'conc': 'captured'})
     if ctx.thorough:
         for s1 in labels:
             for s2 in labels:
@@ -238,8 +251,8 @@ def run(ctx):
     return {
         'evaluations': len(cases),
         'distinct_nontrivial': len({(c['shape'], c['P'], c['conc'], c.get('shape2')) for c in cases}),
-        'rule': 'full product of %d occurrence shapes x %d parameter spellings x %d concrete arguments%s; every case '
-                'is a module placing the shape in 19 contexts (class-, method- and function-level parameters); '
+        'rule': 'full product of %d occurrence shapes x %d parameter spellings x %d concrete arguments (plus a concrete type spelled like the method-level parameter for 7 shapes)%s; every case '
+                'is a module placing the shape in 22 contexts (class-, method- and function-level parameters); '
                 'non-trivial = contains at least one parameter occurrence or look-alike; all are distinct'
                 % (len(labels), len(spellings), len(CONCRETE),
                    ' + all ordered shape pairs in one signature x 2 concretes' if ctx.thorough else ''),
